@@ -96,7 +96,7 @@ def pred_faithful(line, ref):
     return None
 
 def is_plain(op):
-    return op[0] in ("expand", "bfs", "dfs", "target", "reclaim", "pickle", "cands", "seeds", "sets") or (op[0] == "min" and not op[3]) \
+    return op[0] in ("expand", "bfs", "dfs", "target", "reclaim", "pickle", "cands", "seeds", "sets", "aseeds") or (op[0] == "min" and not op[3]) \
         or (op[0] == "block" and not op[3])
 
 # ---------------------------------------------------------------- generic case worker
